@@ -201,6 +201,7 @@ impl<'a> Hist<'a> {
                 let m = ScmpInternalConnectivityDown::new(ia_of(*asn), *ing, *eg, vec![*tag; 8 + *tag as usize]);
                 s.inject(scmp(*asn, ScmpErrorMessage::InternalConnectivityDown(m)));
             }
+            Report::FirstHopForeign { .. } => unreachable!("foreign reports do not go through this socket"),
             Report::FirstHop { ifid } => {
                 // the underlay refuses the next packet leaving through `ifid`; a send towards a pair whose active path
                 // starts there (if any) meets the refusal
